@@ -5,7 +5,7 @@ CONSTANTS
   ChkOutcomes <- OkPerm
   MaxCrashes = 2
   MaxRuns = 1
-  Tolerated <- KnownRecoveryAny
+  Tolerated <- KnownRecovery
   FnOut = TRUE
   Poller = FALSE
   Gen = "off"
